@@ -334,6 +334,7 @@ fn acct_run(c: &AcctCase, ctx: &mut Ctx, sim: &mut Sim, st: &mut C03) -> CaseRes
 
 fn main() {
 	install_recording_signer();
+	netsim::rec::tolerate_monitor_roundtrip_tripwire();
 	let mut c = Check::new("C03", "exploration");
 	c.assume("all nodes are unmodified LDK nodes; the sender S (node 0) funds its channels and is the only payer; messages are delivered FIFO per direction, individually, at generated times");
 	c.assume("restarts of S use any ChannelManager snapshot taken earlier in the run (stale managers are legal per the ChannelManager persistence docs) with, per channel, the durable or the latest written ChannelMonitor image");
